@@ -30,7 +30,29 @@ type c13Desc struct {
 
 var c13Status = []int{101, 200, 201, 204, 400, 403, 404, 426, 500, 100, 102}
 
-var c13Accept = []string{"right", "other-key", "absent", "upper-cased", "empty", "right-two-lines"}
+var c13Accept = []string{"right", "other-key", "absent", "upper-cased", "empty", "right-two-lines",
+	// other spellings that a lenient comparison (decode and compare the digests) would let through; only tried
+	// on responses that are valid otherwise
+	"unused-bits-1", "unused-bits-2", "unused-bits-3", "no-padding", "trailing-junk", "double-padding"}
+
+// c13Respell returns another base64 spelling of (or a near miss to) the right accept value.
+func c13Respell(acc, right string) string {
+	const alphabet = "ABCDEFGHIJKLMNOPQRSTUVWXYZabcdefghijklmnopqrstuvwxyz0123456789+/"
+	switch acc {
+	case "unused-bits-1", "unused-bits-2", "unused-bits-3":
+		// 20 digest bytes = 26 full characters + one that carries 4 bits: its low 2 bits are not part of the value
+		i := strings.IndexByte(alphabet, right[26])
+		j := i&^3 | (i+int(acc[len(acc)-1]-'0'))&3
+		return right[:26] + string(alphabet[j]) + right[27:]
+	case "no-padding":
+		return strings.TrimRight(right, "=")
+	case "trailing-junk":
+		return right + "A"
+	case "double-padding":
+		return right + "="
+	}
+	return right
+}
 
 type extCase struct {
 	Name   string
@@ -166,6 +188,8 @@ func (t c13RT) RoundTrip(r *http.Request) (*http.Response, error) { return t.fn(
 
 func c13Run(r *fw.R, d c13Desc) {
 	r.SetSample(d)
+	respelled := int64(0)
+	defer func() { r.Count("responses_with_a_respelled_accept_value", respelled) }()
 	otherKeyAccept := attach.AcceptKey("AAAAAAAAAAAAAAAAAAAAAA==")
 	for _, up := range c11Upg {
 		for _, acc := range c13Accept {
@@ -173,6 +197,9 @@ func c13Run(r *fw.R, d c13Desc) {
 				for _, ext := range c13Ext {
 					if r.Failed() {
 						return
+					}
+					if c13Respell(acc, "AAAAAAAAAAAAAAAAAAAAAAAAAAA=") != "AAAAAAAAAAAAAAAAAAAAAAAAAAA=" && !(d.Status == 101 && d.Conn.OK == 1 && up.OK == 1) {
+						continue
 					}
 					var sentReq *http.Request
 					libEnd, peerEnd := xport.Pair(xport.Plan{NoTap: true}, xport.Plan{NoTap: true})
@@ -194,6 +221,9 @@ func c13Run(r *fw.R, d c13Desc) {
 							h.Set("Sec-WebSocket-Accept", "")
 						case "right-two-lines":
 							h["Sec-Websocket-Accept"] = []string{attach.AcceptKey(key), otherKeyAccept}
+						case "unused-bits-1", "unused-bits-2", "unused-bits-3", "no-padding", "trailing-junk", "double-padding":
+							h.Set("Sec-WebSocket-Accept", c13Respell(acc, attach.AcceptKey(key)))
+							respelled++
 						}
 						if sub != "" {
 							h.Set("Sec-WebSocket-Protocol", sub)
